@@ -25,8 +25,8 @@ META = {
         'resized to (nfiber, npix); C16.TILING - spec_append allocates zeros of shape (nrows1+nrows2, max(npix1+nadd1, '
         'npix2+nadd2)), stores rows [0,nrows1) and [nrows1,nrows) with column slices of the sources\' own widths starting '
         'at nadd_i, at most one nadd_i non-zero with value |pixshift|, and has no return path that bypasses this. '
-        'NOT decided: file location (spec_path, latest_mjd), optional files present for some plates only, the align arithmetic.'),
-    'floors': {'C16.INV-PERM': 3, 'C16.REORDER-ALL': 5, 'C16.LOCKSTEP': 6, 'C16.ROWSEL': 4, 'C16.LOGLAM': 2, 'C16.TILING': 7},
+        'C16.NO-MEMO - readspec and the file-location helpers it calls keep no module-level memo. NOT decided: correctness of file location itself (spec_path, latest_mjd), optional files present for some plates only, the align arithmetic.'),
+    'floors': {'C16.INV-PERM': 3, 'C16.REORDER-ALL': 5, 'C16.LOCKSTEP': 6, 'C16.ROWSEL': 4, 'C16.LOGLAM': 3, 'C16.TILING': 7, 'C16.NO-MEMO': 3},
 }
 
 SPEC1D = 'pydl/pydlspec2d/spec1d.py'
@@ -205,6 +205,13 @@ def check_readspec(ctx, repo):
             a = fa.deep(e.args[0])
             return 'arange(%s)' % (hdr_atom(a) or src(a))
         return None
+    loopnode = next(a for a in ancestors(ll0[0]) if isinstance(a, ast.For))
+    cond = [src(a.test) for a in ancestors(ll0[0]) if isinstance(a, ast.If) and any(a is x for x in ast.walk(loopnode))]
+    alldefs = [st for st in walk_local(f.node) if isinstance(st, ast.Assign) and src(st.targets[0]) == 'loglam0' and st.lineno < jst.lineno]
+    ctx.check('C16.LOGLAM', not cond and len(alldefs) == 1, f, ll0[0], 'the wavelength vector is rebuilt unconditionally for every file from that file\'s own header',
+              msg='the per-file wavelength vector is rebuilt only under `%s` (or carried over from a definition outside the loop): a file with the same '
+                  'pixel count but another COEFF0/COEFF1 inherits the previous file\'s wavelengths' % (cond or 'an outer definition'),
+              construct='loglam0 conditional: %s' % (cond or [src(d)[:30] for d in alldefs]))
     try:
         p = poly_of(ll0[0].value, atom=hdr_atom, resolve=fa.resolve)
     except NotPoly as e:
@@ -340,6 +347,35 @@ def check_spec_append(ctx, repo):
               msg='offsets nadd1/nadd2 are defined as %s / %s' % (defs['nadd1'], defs['nadd2']), construct='nadd definitions')
 
 
+def check_no_memo(ctx, repo):
+    """The helpers that locate files consult the environment and the file system on every call: no module-level memo."""
+    from ..callgraph import CallGraph
+    cg = CallGraph(repo)
+    f = repo.func(SPEC1D, 'readspec')
+    mod = f.module
+    mod_names = {t.id for st in mod.tree.body if isinstance(st, (ast.Assign, ast.AnnAssign)) for t in (st.targets if isinstance(st, ast.Assign) else [st.target])
+                 if isinstance(t, ast.Name)}
+    for g in sorted(cg.closure_callees({f}), key=lambda x: (x.rel, x.qualname)):
+        if g.rel != SPEC1D:
+            continue
+        ctx.cover(g)
+        decos = [src(d) for d in g.node.decorator_list if any(w in src(d) for w in ('cache', 'memo'))]
+        shared = []
+        for n in walk_local(g.node):
+            if isinstance(n, ast.Global):
+                shared.append('global ' + ','.join(n.names))
+            if isinstance(n, (ast.Subscript, ast.Attribute)) and isinstance(n.value, ast.Name) and n.value.id in mod_names and n.value.id not in ('log',) \
+                    and not any(isinstance(d, (ast.Assign, ast.arg)) for d in ()):
+                if isinstance(n, ast.Subscript) and isinstance(n.ctx, ast.Store):
+                    shared.append(src(n)[:40])
+                if isinstance(n, ast.Attribute) and n.attr in ('setdefault', 'update', 'append', 'add', 'pop', 'clear') :
+                    shared.append(src(n)[:40])
+        ctx.check('C16.NO-MEMO', not decos and not shared, g, g.node, '%s keeps no module-level memo (file location is re-derived from the environment on every call)' % g.qualname,
+                  msg='%s remembers results in module-level state (%s): after the environment or the survey tree changes, readspec silently returns rows of the '
+                      'previously seen plate-MJD' % (g.qualname, (decos + shared)[:3]), construct='%s memo: %s' % (g.qualname, (decos + shared)[:2]))
+
+
 def run(ctx):
     check_readspec(ctx, ctx.repo)
+    check_no_memo(ctx, ctx.repo)
     check_spec_append(ctx, ctx.repo)
